@@ -33,8 +33,9 @@ def draw_config(rng, mode="bounded", allow_restart=False, faults=True):
         c["jobids"] = JOBIDS[: rng.randint(1, 6)]
     c["p_noid"] = rng.choice([0.0, 0.2, 0.5])
     c["prios"] = rng.choice([[0], [0, 1], [0, 1, 2], [2, 1, 0, 0]])
-    c["timeouts"] = rng.choice([[None], [None, 5, 60], [5], [None, 1200]])
-    c["ttls"] = rng.choice([[None], [None, 20, 100]])
+    # always explicit: the defaults (120 s, 3600 s) are implementation constants, not properties
+    c["timeouts"] = rng.choice([[120], [120, 5, 60], [5], [120, 1200]])
+    c["ttls"] = rng.choice([[3600], [3600, 20, 100]])
     # swarm: each run enables a random subset of op kinds with random weights
     w = {"add": rng.choice([2, 4, 6]), "pull": rng.choice([2, 4, 6]), "run": rng.choice([2, 4, 8]),
          "finish": rng.choice([1, 3]), "yield": rng.choice([0, 0, 1])}
@@ -505,7 +506,7 @@ def minimise(data_dir, steps, choices, cls, run_cls=QsRun, budget=300, **kw):
             if st[0] != "send":
                 continue
             args = st[3]
-            for k in ("payload", "ttl", "timeout", "priority", "wait", "result"):
+            for k in ("payload", "priority", "wait", "result"):
                 if k in args and not (k == "wait"):
                     cand_args = {x: y for x, y in args.items() if x != k}
                     cand = small[:i] + [[st[0], st[1], st[2], cand_args]] + small[i + 1:]
